@@ -235,11 +235,11 @@ CHECKS = {
         design="5-C07"),
     "C18": dict(
         engine="E4-stores",
-        technique="Coq proof (step invariants over all op sequences, merge laws) + in-Coq correspondence with real BoundedAttributes/Resource/Deep.start",
-        text="14 Coq theorems over the executable model Attrs.v: capacity/distinct-keys/cleaned-values invariant for every "
+        technique="Coq proof over functions REGENERATED from /repo/src by a fail-closed Python-ast translator (pure.py) and proved equal to the model + Coq proof (step invariants over all op sequences, merge laws) + in-Coq correspondence with real BoundedAttributes/Resource/Deep.start",
+        text="16 Coq theorems over the executable model Attrs.v: capacity/distinct-keys/cleaned-values invariant for every "
              "reachable store state, exact FIFO-eviction and drop-count step law, conservation, frozen stores, "
              "merge precedence, schema rule, last-holder-wins for chains, mandatory keys. The model is tied to the code "
-             "on every run by evaluating it inside Coq on the op sequences / resource chains the real classes just ran.",
+             "on every run by evaluating it inside Coq on the op sequences / resource chains the real classes just ran. Tie T2: BoundedAttributes.__setitem__ / __delitem__ are translated from source on every run (coq/gen/PStore.v) and proved equal to the model's set_item / del_item for every store, key text and value; C18_the_code_keeps_the_capacity is stated over the translated code.",
         note="Trusted: Coq kernel+VM; harness generators/encoders; floats opaque; urllib unquote; non-string "
              "process.executable.name is outside the generated domain. 'merge does not modify operands' is checked on "
              "the implementation (the functional model cannot exhibit mutation).",
